@@ -218,7 +218,7 @@ def shard(idx, n, tier, seed, builds, cli):
                     toks = w.call({"op": "lex", "code": t}).get("tokens", [])
                     for d, ncomments in fmtlib.decorate(t, toks, rng, 6 if tier == "quick" else 40):
                         fixed_point(acc, w, build, d, "decorated")
-                for t in runner.chunks(fmtlib.supported_comment_programs(), idx, n):
+                for t in runner.chunks(fmtlib.supported_comment_programs(empty_brackets=False), idx, n):
                     fixed_point(acc, w, build, t, "supported-comment-position")
                     acc.inc("supported_comment_position_programs")
         finally:
